@@ -205,3 +205,58 @@ def check_unsafe(ctx, rule):
         ctx.ob(rule, "no-unsafe-blocks:" + c, not bad, c, "functions with unsafe blocks: %s" % bad[:5])
         ub = [i["self"] for i in data["impls"] if i.get("unsafe_impl") and not i.get("exp")]
         ctx.ob(rule, "no-unsafe-impls:" + c, not ub, c, "hand-written unsafe impls: %s" % ub[:5])
+
+
+# functions in which rayon is used, reviewed for C02/C10 (what they collect into, what their closures capture)
+PAR_SITES = {"essential_vm::compute::compute", "essential_check::solution::check_set_predicates", "essential_check::solution::check_predicate_inner"}
+
+
+def check_par_sites(ctx, rule):
+    """A new place that drives a parallel iterator needs review: its closures run on pool workers that also execute other
+    pending jobs while they wait (work stealing), which matters for shared state, for blocking initialisers and for ordering."""
+    prog = ctx.prog
+    seen = {}
+    for fn, bb, t, c in par_calls(prog):
+        top = re.sub(r"(::\{closure#\d+\})+$", "", fn.path)
+        seen.setdefault(top, (fn, bb))
+    for top, (fn, bb) in sorted(seen.items()):
+        ctx.ob(rule, "parallel-site:" + top, top in PAR_SITES, fn.loc(bb), "rayon is driven from %s%s" % (top, "" if top in PAR_SITES else " -- not one of the reviewed parallel sites %s" % sorted(PAR_SITES)), fn)
+    return len(seen)
+
+
+ONCE = re.compile(r"(OnceLock(<T>)?::(get_or_init|get_or_try_init)|OnceCell(<T>)?::(get_or_init|get_or_try_init)|LazyLock(<T, F>)?::(new|force)|sync::Once::(call_once|call_once_force))$")
+
+
+def check_once_initialisers(ctx, rule):
+    """An initialiser run under OnceLock::get_or_init blocks every other caller of the same cell.  If it waits on the rayon
+    pool, the waiting worker may pick up a job that calls the same cell again and never return (re-entrant initialisation)."""
+    prog = ctx.prog
+    n = 0
+    for fn in prog.fns.values():
+        if fn.crate not in CRATES or fn.kind == "Const":
+            continue
+        pv = None
+        for bb, t in fn.calls():
+            if not ONCE.search(M.callee_of(t)):
+                continue
+            n += 1
+            pv = pv or prog.prov(fn)
+            roots = []
+            for a in t["args"]:
+                x = M.peel(pv.of_operand(a), transparent=False)
+                if x.kind == "aggr" and str(x.a).startswith("closure:"):
+                    roots.append(x.a[len("closure:"):])
+                elif x.kind == "fn":
+                    roots.append(M.strip_generics(x.a))
+            reach, _ = prog.reachable_from([r for r in roots if r in prog.fns])
+            par = []
+            for p in sorted(reach):
+                g = prog.fns[p]
+                for b2, t2 in g.calls():
+                    c2 = M.callee_decl(t2)
+                    if c2.startswith("rayon::") or c2.startswith("rayon_core::"):
+                        par.append((g.path, c2.split("::")[-1]))
+            ctx.saw(fn)
+            ctx.ob(rule, "once-initialiser-does-not-wait-on-the-pool:" + fn.path, not par, fn.loc(bb),
+                   "initialiser %s reaches %d function(s); rayon calls among them: %s" % (roots, len(reach), par[:3]), fn)
+    return n
